@@ -664,6 +664,10 @@ func (r *QRunner) readerRead(bufLen int) *Violation {
 	return nil
 }
 
+// MaxDrainEvent bounds the event size a drain accepts (generated events are
+// far smaller); protects the harness against bogus sizes read from a corrupted queue.
+var MaxDrainEvent = 4 << 20
+
 // DrainCopy opens a second queue object on the file and reads everything a
 // reader can get (without ACK). Returns the events.
 func DrainCopy(f *txfile.File) (events [][]byte, v *Violation) {
@@ -689,6 +693,9 @@ func DrainCopy(f *txfile.File) (events [][]byte, v *Violation) {
 		if n <= 0 {
 			return events, nil
 		}
+		if n > MaxDrainEvent {
+			return nil, violationf("q-size", -1, "Reader.Next reports an event of %d bytes after %d events (larger than anything ever written)", n, len(events))
+		}
 		buf := make([]byte, n)
 		got := 0
 		for got < n {
@@ -702,7 +709,7 @@ func DrainCopy(f *txfile.File) (events [][]byte, v *Violation) {
 			got += k
 		}
 		events = append(events, buf)
-		if len(events) > 1<<20 {
+		if len(events) > 200000 {
 			return nil, violationf("q-drain", -1, "reader does not terminate")
 		}
 	}
